@@ -77,9 +77,10 @@ ASSUMPTIONS = [
 ]
 
 FAMILIES = ["1d_int", "1d_float", "1d_adaptive", "1d_gapped", "2d_fixed", "2d_adaptive", "2d_gapped_axis", "3d_fixed",
-            "1d_int32"]
+            "1d_int32", "1d_gapped_int", "1d_float_no_missed", "2d_no_missed"]
 VALID = ["fill", "fill", "fill_w", "fill_n", "fill_n", "fill_n_w", "iadd_copy", "imul", "idiv", "merge", "set_dtype",
-         "normalize", "fill_far", "isub_half", "iadd_float_copy", "isub_small_int", "fill_heavy"]
+         "normalize", "fill_far", "isub_half", "iadd_float_copy", "isub_small_int", "fill_heavy", "iadd_batch_built",
+         "iadd_batch_built"]
 
 
 def generate(rng, seed, part):
@@ -126,6 +127,16 @@ def make_node(cfg):
         h = Histogram1D(FixedWidthBinning(bin_width=0.5, bin_count=4, bin_times_min=0, adaptive=True))
     elif fam == "1d_gapped":
         h = Histogram1D(StaticBinning(np.array([[0.0, 1.0], [1.5, 2.0], [2.0, 3.0], [3.0, 4.0]])), dtype=np.float64)
+    elif fam == "1d_gapped_int":
+        # integer contents over bins with a gap: under/overflow are known (integers) until a batch or a gap value
+        # makes them unknown (NaN, kept as floats)
+        h = Histogram1D(StaticBinning(np.array([[0.0, 1.0], [1.5, 2.0], [2.0, 3.0], [3.0, 4.0]])))
+    elif fam == "1d_float_no_missed":
+        h = Histogram1D(StaticBinning(np.array([[0.0, 1.0], [1.0, 2.0], [2.0, 3.5], [3.5, 4.0]])), dtype=np.float64,
+                        keep_missed=False)
+    elif fam == "2d_no_missed":
+        h = Histogram2D([StaticBinning(np.array([[0.0, 1.0], [1.0, 2.5], [2.5, 4.0]])),
+                         StaticBinning(np.array([[0.0, 2.0], [2.0, 4.0]]))], keep_missed=False)
     elif fam == "2d_fixed":
         h = Histogram2D([StaticBinning(np.array([[0.0, 1.0], [1.0, 2.5], [2.5, 4.0]])),
                          StaticBinning(np.array([[0.0, 2.0], [2.0, 4.0]]))])
@@ -187,6 +198,14 @@ def apply_valid(h, kind, arg):
     if kind == "iadd_float_copy":
         other = h.copy()
         other *= 0.25
+        h += other
+        return None
+    if kind == "iadd_batch_built":
+        # the other operand was filled in one batch over the same bins (its missed bookkeeping may be of another kind
+        # than the node's: NaN "unknown" for gapped bins, floats next to integers)
+        other = h.copy(include_frequencies=False)
+        vals = np.asarray([[0.25 + ((arg + 3 * k + j) % 15) * 0.25 for j in range(nd)] for k in range(3)])
+        other.fill_n(vals[:, 0] if nd == 1 else vals)
         h += other
         return None
     if kind == "imul":
